@@ -186,3 +186,89 @@ func briefAll(evs []*mocrelay.Event) []map[string]any {
 	}
 	return out
 }
+
+// TestC02LimitSequences concentrates on the limit-counting form: every filter
+// carries a small limit, the event stream is long enough to exhaust them.
+func TestC02LimitSequences(t *testing.T) {
+	col := ev.For("C02").SetRule("cases = (4 generated events over small pools) x (1-3 generated filters), each pair checked against the naive NIP-01 predicate, plus the list matcher and a LimitMatch/Done sequence of 0-12 events against per-filter model counters; non-trivial = some (event, filter) pair where the filter has >=2 present conditions and the event fails at most one of them (the decision hinges on one condition), or Done() flips during the sequence; distinct by hash of the rendered case")
+	authors := gen.Pubkeys(2)
+	rapid.Check(t, func(t *rapid.T) {
+		c02TsBase = 100
+		evs := make([]*mocrelay.Event, 5)
+		for i := range evs {
+			evs[i] = c02Event(t, fmt.Sprintf("e%d.", i), authors)
+		}
+		nf := rapid.IntRange(0, 3).Draw(t, "nf")
+		fs := make([]*mocrelay.ReqFilter, nf)
+		for i := range fs {
+			f := &mocrelay.ReqFilter{}
+			switch rapid.IntRange(0, 4).Draw(t, fmt.Sprintf("f%d.shape", i)) {
+			case 0:
+			case 1:
+				f.Kinds = []int64{1}
+			case 2:
+				f.Authors = []string{rapid.SampledFrom(authors).Draw(t, fmt.Sprintf("f%d.a", i))}
+			case 3:
+				f.Tags = map[string][]string{"t": {"x", "y"}}
+			case 4:
+				f.IDs = []string{evs[rapid.IntRange(0, 4).Draw(t, fmt.Sprintf("f%d.id", i))].ID}
+			}
+			if rapid.IntRange(0, 5).Draw(t, fmt.Sprintf("f%d.lim?", i)) != 0 {
+				f.Limit = gen.Ptr(int64(rapid.IntRange(0, 4).Draw(t, fmt.Sprintf("f%d.lim", i))))
+			}
+			fs[i] = f
+		}
+		lm := mocrelay.NewReqFiltersEventLimitMatcher(fs)
+		cnt := make([]int64, len(fs))
+		done := func() bool {
+			for i, f := range fs {
+				if f.Limit == nil || cnt[i] < *f.Limit {
+					return false
+				}
+			}
+			return true
+		}
+		var seq []int
+		flips := 0
+		prev := done()
+		if lm.Done() != prev {
+			hx.Fail(t, ev.Failure{Property: "C02", Signature: "done-initial", Clause: "Done() before any event", Case: map[string]any{"filters": gen.BriefFilters(fs)}, Observed: fmt.Sprint(!prev), Expected: fmt.Sprint(prev)})
+		}
+		n := rapid.IntRange(1, 16).Draw(t, "n")
+		for s := 0; s < n; s++ {
+			idx := rapid.IntRange(0, len(evs)-1).Draw(t, fmt.Sprintf("s%d", s))
+			seq = append(seq, idx)
+			want := false
+			for i, f := range fs {
+				if gen.MatchFilter(evs[idx], f) {
+					cnt[i]++
+					want = true
+				}
+			}
+			// Match (without counting) must keep answering by the predicate, whatever the counters say
+			if rapid.Bool().Draw(t, fmt.Sprintf("s%d.alsoMatch", s)) {
+				if got := lm.Match(evs[idx]); got != want {
+					hx.Fail(t, ev.Failure{Property: "C02", Signature: "list-match", Clause: "a filter list matches when any member matches (independently of the limit counters)",
+						Case: map[string]any{"events": briefAll(evs), "filters": gen.BriefFilters(fs), "sequence": seq}, Observed: fmt.Sprint(got), Expected: fmt.Sprint(want)})
+				}
+			}
+			if got := lm.LimitMatch(evs[idx]); got != want {
+				hx.Fail(t, ev.Failure{Property: "C02", Signature: "limitmatch-return", Clause: "LimitMatch returns whether any filter matches",
+					Case: map[string]any{"events": briefAll(evs), "filters": gen.BriefFilters(fs), "sequence": seq}, Observed: fmt.Sprint(got), Expected: fmt.Sprint(want)})
+			}
+			d := done()
+			if got := lm.Done(); got != d {
+				hx.Fail(t, ev.Failure{Property: "C02", Signature: "done", Clause: "Done() iff every filter has a limit and matched >= limit events",
+					Case: map[string]any{"events": briefAll(evs), "filters": gen.BriefFilters(fs), "sequence": seq, "counts": cnt}, Observed: fmt.Sprint(got), Expected: fmt.Sprint(d)})
+			}
+			if d != prev {
+				flips++
+				col.Label("seq:done-flips")
+			}
+			prev = d
+		}
+		col.Case(flips > 0, hx.JSON([]any{briefAll(evs), gen.BriefFilters(fs), seq}), func() any {
+			return map[string]any{"events": briefAll(evs), "filters": gen.BriefFilters(fs), "sequence": seq}
+		})
+	})
+}
